@@ -99,6 +99,80 @@ def run(ctx):
                   'run_bisync lists a different plan under --dry-run than it applies', loc(b, b.lo))
 
 
+def _decision_roots(F, b, fl, op):
+    """(derived from an entry of the delete list?, roots): everything the operand is computed from, through call arguments and
+    the captures of closures handed to those calls - as (kind, key, bb-or-slot) triples"""
+    closure_caps = {}
+    for blk in b.blocks:
+        for st in blk['stmts']:
+            rv = st['rv']
+            if rv['k'] == 'agg' and rv.get('ak') == 'closure' and not st['dst']['proj']:
+                closure_caps[st['dst']['l']] = rv['ops']
+    derived, roots, work, seen_ = False, set(), [op], set()
+    while work and len(seen_) < 400:
+        cur = work.pop()
+        if cur['k'] == 'const':
+            continue
+        if not cur['p']['proj'] and cur['p']['l'] in closure_caps:
+            work += [a for a in closure_caps[cur['p']['l']] if a['k'] != 'const']
+        for o in fl.origins(cur, mut_calls=True):
+            k_ = (o.kind, str(o.key), o.bb)
+            if k_ in seen_:
+                continue
+            seen_.add(k_)
+            if o.kind in ('param', 'upvar'):
+                roots.add((o.kind, str(o.key), None))
+            elif o.kind in ('call', 'mutcall'):
+                roots.add(('call', str(o.key), o.bb))
+            if o.kind == 'call' and o.key == 'std::iter::Iterator::next' and o.bb is not None:
+                io = iterated_collection(fl, o.bb)
+                if any(y.path[-1:] == ('delete',) for y in io) or any(y.kind in ('param', 'upvar') for y in io):
+                    derived = True
+            if o.kind in ('call', 'mutcall') and o.bb is not None and str(o.key) != 'plan::build_plan':
+                # (the plan itself was computed from both listings: an ENTRY of plan.delete says nothing about its neighbours)
+                work += [a for a in b.blocks[o.bb]['term'].get('args', []) if a['k'] != 'const']
+    return derived, roots
+
+
+def _destination_listing_keys(F, cg, graph, b, fl):
+    """root keys (as in _decision_roots) under which the DESTINATION listing - the second argument of build_plan - is visible in
+    body `b`: the call that produced it when build_plan is called here, or the parameter / capture it arrives in when `b` is a
+    function the planning body calls (one level)"""
+    keys = set()
+    for pb_, pt_ in fl.calls_to('plan::build_plan'):
+        for o in fl.origins(pt_['args'][1]):
+            if o.kind in ('call', 'mutcall'):
+                keys.add(('call', str(o.key), o.bb))
+            elif o.kind in ('param', 'upvar'):
+                keys.add((o.kind, str(o.key), None))
+    if keys:
+        return keys
+    top = b.path.split('::{')[0]
+    tb = F.body(top)
+    if tb is None:
+        return keys
+    for sb, sbb, _ in cg.call_sites(lambda c2: c2 == top, within=graph):
+        sfl = flow_of(sb)
+        dk = set()
+        for pb_, pt_ in sfl.calls_to('plan::build_plan'):
+            dk |= {(o.kind, str(o.key), o.bb) for o in sfl.origins(pt_['args'][1]) if o.kind in ('call', 'mutcall')}
+        if not dk:
+            continue
+        keys.add(('known', 'caller-has-a-destination-listing', None))     # the caller HAS one: whether it is handed over is read below
+        for ai, a in enumerate(sb.blocks[sbb]['term']['args']):
+            if a['k'] == 'const':
+                continue
+            if {(o.kind, str(o.key), o.bb) for o in sfl.origins(a) if o.kind in ('call', 'mutcall')} & dk:
+                name = tb.local_name(ai + 1)
+                if b is tb:
+                    keys.add(('param', str(ai + 1), None))
+                else:
+                    for uk, un in (getattr(b, 'upvars', None) or {}).items():
+                        if un == name:
+                            keys.add(('upvar', str(uk), None))
+    return keys
+
+
 def delete_sources(ctx, F, rid):
     """Every file removal under run_sync_recursive takes its path from plan.delete (dst root joined with the loop entry)."""
     from callgraph import callgraph_of
@@ -125,6 +199,22 @@ def delete_sources(ctx, F, rid):
         if not ok and removes_own_staging(F, b, t['args'][0]):
             ctx.ok(rid, '%s:remove_file(own staging file)' % top, 'removes the file this staging handle created (clean-up, not a delete of the plan)', term_loc(b, bb))
             continue
+        if not ok and c.endswith('remove_dir_all'):
+            # a whole directory removed in one call, the directory DERIVED from an entry of the delete list (an ancestor of it):
+            # right only if everything below it is planned for deletion - which files are there is in the listings, not in the shape
+            derived, roots = _decision_roots(F, b, fl, t['args'][0])
+            if derived:
+                # what is below a directory of the DESTINATION is known only from the destination listing (or the file system):
+                # a choice of directory computed without either cannot know that nothing else is there - positively insufficient
+                dst_keys = _destination_listing_keys(F, cg, graph, b, fl)
+                looks = any(r_ in dst_keys for r_ in roots) or any(r_[0] == 'call' and str(r_[1]).split('::')[-1] in ('read_dir', 'symlink_metadata', 'metadata', 'exists', 'try_exists') for r_ in roots)
+                if dst_keys and not looks:
+                    ctx.bad(rid, '%s:removes-directory-without-looking-at-the-destination' % top,
+                            '%s removes a whole directory (remove_dir_all) chosen from an entry of the delete list without consulting the destination listing or the file system: '
+                            'files below it that are not planned for deletion (excluded ones are filtered out of the plan) are removed with it' % top, term_loc(b, bb))
+                    continue
+                ctx.undecided(rid, '%s removes a whole directory (remove_dir_all) that it derives from an entry of the delete list: that every file below it is planned for deletion (and none is excluded) is not decided' % top)
+                continue
         ctx.check(ok, rid, '%s:remove_file<-plan.delete' % top, 'removed path = root.join(entry of plan.delete)',
                   '%s removes a file that does not come from plan.delete' % top, term_loc(b, bb))
     # apply_remote_deletes receives &plan.delete
